@@ -92,6 +92,8 @@ func c20RunPool(n int, initial []string, env []string, handle func(job string, r
 		mu.Unlock()
 	}
 	self, _ := os.Executable()
+	var extMu sync.Mutex
+	extKills := map[string]int{}
 	var wg sync.WaitGroup
 	for w := 0; w < n; w++ {
 		wg.Add(1)
@@ -134,7 +136,26 @@ func c20RunPool(n int, initial []string, env []string, handle func(job string, r
 					wd.Stop()
 					if err != nil {
 						cmd.Wait()
-						done(job, vlib.PoolResult{Job: job, Died: true, TimedOut: atomic.LoadInt32(&timedOut) == 1, Stderr: errb.String()})
+						to := atomic.LoadInt32(&timedOut) == 1
+						stderr := errb.String()
+						if vlib.ExternallyKilled(cmd.ProcessState, to, stderr) {
+							// the host killed the worker (not a crash of the code under test): the job goes back to the queue, at most twice
+							extMu.Lock()
+							n := extKills[job]
+							extKills[job] = n + 1
+							extMu.Unlock()
+							if n < 2 {
+								time.Sleep(3 * time.Second)
+								mu.Lock()
+								queue = append([]string{job}, queue...)
+								inflight--
+								cond.Broadcast()
+								mu.Unlock()
+								break
+							}
+							stderr += "\n" + vlib.ExternalKillMarker
+						}
+						done(job, vlib.PoolResult{Job: job, Died: true, TimedOut: to, Stderr: stderr})
 						break
 					}
 					done(job, vlib.PoolResult{Job: job, Out: strings.TrimRight(line, "\n")})
